@@ -42,11 +42,11 @@ pub fn oracle_c08(cfg: &EwCfg, tr: &EwTrace) -> Vec<Violation> {
         for d in tr.delivered.iter() { let g = &tr.wire[d.dg]; if g.dst == saddr() && g.src == caddr(i) { if let Some(Frame::HandshakeSynFrame(_)) = g.frame { items.push((d.round, 1, It::Syn)); } } }
         for e in tr.sev[i].iter() { items.push((e.round, 2, It::Ev(e.ev.clone()))); }
         items.sort_by_key(|x| (x.0, x.1));
-        let mut st = St::Idle; let mut syn_since = false; let mut log: Vec<String> = Vec::new();
+        let mut st = St::Idle; let mut syn_since = 0usize; let mut log: Vec<String> = Vec::new();
         for (round, _, it) in items {
             match it {
-                It::Drop => { log.push(format!("drop()@r{}", round)); if st == St::Conn { st = St::Term; syn_since = false; } }
-                It::Syn => { syn_since = true; }
+                It::Drop => { log.push(format!("drop()@r{}", round)); if st == St::Conn { st = St::Term; syn_since = 0; } }
+                It::Syn => { syn_since += 1; }
                 It::Ev(ev) => {
                     log.push(format!("{}@r{}", ev_name(&ev), round));
                     let bad = match (&ev, st) {
@@ -55,15 +55,16 @@ pub fn oracle_c08(cfg: &EwCfg, tr: &EwTrace) -> Vec<Violation> {
                         (Ev::Receive(_), St::Term) => Some("Receive after the terminal event"),
                         (Ev::Disconnect, St::Idle) => Some("Disconnect without Connect"),
                         (Ev::Disconnect, St::Term) => Some("Disconnect after the terminal event"),
-                        (Ev::Error(_), St::Term) | (Ev::Error(_), St::Idle) if !syn_since => Some("Error event with no connection or handshake it could belong to"),
+                        (Ev::Error(_), St::Term) | (Ev::Error(_), St::Idle) if syn_since == 0 => Some("Error event with no connection or handshake it could belong to"),
                         _ => None,
                     };
                     if let Some(b) = bad { out.push(viol("C08.server", format!("C08.server:{}", b.replace(' ', "-")), format!("server events for client {} are not well-formed: {}: {:?}", i, b, log))); break; }
                     match ev {
                         Ev::Connect => { st = St::Conn; }
                         Ev::Receive(_) => {}
-                        Ev::Disconnect => { st = St::Term; syn_since = false; }
-                        Ev::Error(_) => { if st == St::Conn { st = St::Term; } syn_since = false; }
+                        Ev::Disconnect => { st = St::Term; syn_since = 0; }
+                        // a handshake error answers one connection request; the error that ends a connection ends all earlier requests
+                        Ev::Error(_) => { if st == St::Conn { st = St::Term; syn_since = 0; } else { syn_since = syn_since.saturating_sub(1); } }
                     }
                 }
             }
